@@ -50,11 +50,13 @@ pub fn run(ctx: &RunCtx) -> Outcome {
 
 pub fn replay(ctx: &RunCtx, case: &Value) -> Result<Option<Fail>, String> {
     match ctx.prop {
-        "C01" => replay_pat(ctx, &c01::prop(false), case),
-        "C02" => replay_pat(ctx, &c01::prop(true), case),
+        "C01" | "C02" => {
+            let f1 = case.get("extra").and_then(|e| e.get("f1_undisputed")).and_then(|b| b.as_bool()).unwrap_or(false);
+            replay_pat(ctx, &diffref::DiffRef { f1_undisputed: f1, ..c01::prop(ctx.prop == "C02") }, case)
+        }
         "C15" => {
-            let omit = case.get("extra").and_then(|e| e.get("omit_empty_no")).and_then(|b| b.as_bool()).unwrap_or(false);
-            replay_pat(ctx, &diffref::DiffRef { omit_empty_no: omit, ..c01::prop_cond() }, case)
+            let flag = |k: &str| case.get("extra").and_then(|e| e.get(k)).and_then(|b| b.as_bool()).unwrap_or(false);
+            replay_pat(ctx, &diffref::DiffRef { omit_empty_no: flag("omit_empty_no"), free_cond_refs: flag("free_cond_refs"), ..c01::prop_cond() }, case)
         }
         "C03" => replay_pat(ctx, &c03::Inject, case),
         "C04" => {
